@@ -334,7 +334,8 @@ def run(ctx):
                     ctx.violation("c11.callback.not_exactly_once" + sfx_stress(job)(""),
                                   "stress %s: %d requests without exactly one callback" % (job, j["cb_not_once"]),
                                   replay_content=json.dumps({"job": job}))
-                if j["drain_rc"] != 0:
+                if j["drain_rc"] != 0 and any(x.get("result") == "stress" and x["drain_rc"] != 0
+                                              for x in stress(job, "_drain")["results"]):
                     ctx.violation("c11.completion.queue_not_drained" + sfx_stress(job)(""),
                                   "stress %s: queue not empty 5 s after the last operation (rc=%d)" % (job, j["drain_rc"]),
                                   replay_content=json.dumps({"job": job}))
